@@ -151,6 +151,7 @@ def mutate(text, rnd):
 
 
 ROBUST_EXTRA = [
+    "#define M a \\\n  b\\1 \\\n  '\\d'\nx = M\n", "#define F(a) a+ \\\n  \\g<9>a\ny = F(1)\n", "#define Q \\\n\\\n\\\nz = Q\n",
     "procedure(f) :: g\n", "#define X 1 \\\n\ninteger :: a\n", "#define X 1 \\", "#define A \\1\ninteger :: A\n",
     "#else\n#endif\n#elif 1\n", "#endif\n", "#if\n#elif\n#else\n#else\n#endif\n#endif\n",
     "program p\ninterface\nsubroutine s()\nimport\nimport\nend subroutine\nend interface\nend program\n",
